@@ -479,7 +479,7 @@ impl Rt {
                     rt.push_event(
                         Some(tid),
                         format!(
-                            "\"ev\":\"Panic\",\"inlib\":{},\"msg\":{}",
+                            "\"ev\":\"ThreadDied\",\"inlib\":{},\"msg\":{}",
                             in_lib,
                             json_str(&msg)
                         ),
